@@ -1460,6 +1460,7 @@ pub fn gen_avg(rng: &mut Rng) -> AvgCase {
     p.kind = Some(Kind::Wig);
     p.zero_len_pm = 0;
     p.max_items = 120;
+    p.scaffolds = false;
     p.huge = false;
     p.io_chaos = false;
     p.sched_chaos = false;
